@@ -16,7 +16,9 @@ RULE = ("Hypothesis draws an m x n operator with m<n, m=n, m>n (1..12; real/comp
         "diagonal and >= 0; U Sigma V^H = M when all triplets are returned; with a Krylov algorithm and k triplets, U Sigma "
         "V^H equals the best rank-k approximation from numpy.linalg.svd (dense algorithms may return all triplets). pinv: x = "
         "pinv(A) @ b satisfies M^H (M x - b) = 0, x is orthogonal to null(M), and x equals numpy.linalg.pinv(M) @ b. "
-        "Non-trivial: non-square, k < min(m,n), complex, or the CG path.")
+        "Non-trivial: non-square, k < min(m,n), complex, or the CG path. Further kinds: Hermitian indefinite operators "
+        "declared SelfAdjoint and PD operators declared PSD (singular values |lambda|), lazy Products of 2-3 full-rank dense "
+        "factors in every orientation pattern (wide@tall, tall@square, square@wide, tall@tall, ...) and Sums.")
 ASSUMPTIONS = [
     "full-rank operators with cond <= ~1e2; tolerances 1e-7 |M| (svd) and 1e-6 |x| cond (pinv; 10 tol cond^2 for CG)",
     "bulk payloads from numpy.default_rng(seed) with the seed a Hypothesis draw",
@@ -31,17 +33,19 @@ def cases(draw, tier):
         return {"fn": draw(st.sampled_from(["svd", "pinv"])), "kind": "large", "m": 1001, "n": 1001, "cplx": False, "seed": draw(st.integers(0, 10**5)),
                 "k": draw(st.integers(1, 3)), "alg": draw(st.sampled_from(["Auto(kw)", "Auto(kw)", "omitted"])), "ncol": 0, "tol_exp": -8, "bdt": "same"}
     fn = draw(st.sampled_from(["svd", "svd", "pinv"]))
-    kind = draw(st.sampled_from(["dense", "dense", "dense", "eye", "diag", "smul", "perm"]))
+    kind = draw(st.sampled_from(["dense", "dense", "dense", "eye", "diag", "smul", "perm", "herm", "psd_ann", "prod", "prod", "sum"]))
     lim = 8 if tier == "quick" else 12
     m, n = draw(st.integers(1, lim)), draw(st.integers(1, lim))
-    if kind != "dense":
+    if kind not in ("dense", "prod", "sum"):
         n = m
     if kind in ("smul", "perm") and fn == "svd":
         kind = "diag"
     case = {"fn": fn, "kind": kind, "m": m, "n": n, "cplx": draw(st.booleans()), "seed": draw(st.integers(0, 10**6)),
             "k": draw(st.integers(1, min(m, n))), "alg": draw(st.sampled_from(SVD_ALGS if fn == "svd" else PINV_ALGS)),
             "ncol": draw(st.sampled_from([0, 0, 2])), "tol_exp": draw(st.sampled_from([-10, -8, -6])),
-            "bdt": draw(st.sampled_from(["same", "same", "complex", "f32op"]))}
+            "bdt": draw(st.sampled_from(["same", "same", "complex", "f32op"])),
+            # inner dimensions of a lazy product (each factor full rank; the chain keeps the product full rank)
+            "inner": draw(st.sampled_from(["max", "max", "min", "mid"])), "nfac": draw(st.integers(2, 3))}
     return case
 
 
@@ -56,6 +60,48 @@ def build(case):
     rng = np.random.default_rng(seed)
     kind = case["kind"]
     r = min(m, n)
+    if kind == "dense":
+        s = 1.0 * 1.2 ** (np.arange(r) + 0.3 * rng.random(r))
+        rng.shuffle(s)
+        U = KR.rand_unitary(m, seed, cplx)[:, :r]
+        V = KR.rand_unitary(n, seed + 1, cplx)[:, :r]
+        M = (U * s) @ V.conj().T
+        return ops.Dense(M), M
+    if kind in ("herm", "psd_ann"):
+        # Hermitian with singular values |lam| separated by >= 15%; 'herm' is indefinite (signs drawn) and declared
+        # SelfAdjoint, 'psd_ann' positive definite and declared PSD
+        lam = 1.0 * 1.2 ** (np.arange(m) + 0.3 * rng.random(m))
+        if kind == "herm":
+            lam = lam * np.where(rng.random(m) < 0.5, -1, 1)
+        rng.shuffle(lam)
+        Q = KR.rand_unitary(m, seed, cplx)
+        M = (Q * lam) @ Q.conj().T
+        M = (M + M.conj().T) / 2
+        return (cola.SelfAdjoint if kind == "herm" else cola.PSD)(ops.Dense(M)), M
+    if kind == "prod":
+        # lazy product of 2-3 full-rank dense factors whose product has full rank min(m, n): inner dimensions are
+        # >= max(m,n) ('max': e.g. wide @ tall), = min(m,n) ('min': e.g. tall @ square, square @ wide) or in between
+        lo, hi = min(m, n), max(m, n)
+        inner = {"max": hi + int(rng.integers(0, 3)), "min": lo, "mid": int(rng.integers(lo, hi + 1))}[case.get("inner", "max")]
+        dims = [m] + [inner] * (case.get("nfac", 2) - 1) + [n]
+        Fs = []
+        for i in range(len(dims) - 1):
+            a, b = dims[i], dims[i + 1]
+            rr = min(a, b)
+            sv = 1.0 + rng.random(rr)
+            Fs.append((KR.rand_unitary(a, seed + 10 * i, cplx)[:, :rr] * sv) @ KR.rand_unitary(b, seed + 10 * i + 1, cplx)[:, :rr].conj().T)
+        M = Fs[0]
+        for F in Fs[1:]:
+            M = M @ F
+        if np.linalg.matrix_rank(M) == min(m, n) and np.linalg.cond(M) < 1e3:
+            return ops.Product(*[ops.Dense(F) for F in Fs]), M
+        kind = "dense"
+    if kind == "sum":
+        s = 1.0 * 1.2 ** (np.arange(r) + 0.3 * rng.random(r))
+        rng.shuffle(s)
+        M = (KR.rand_unitary(m, seed, cplx)[:, :r] * s) @ KR.rand_unitary(n, seed + 1, cplx)[:, :r].conj().T
+        E = rng.standard_normal((m, n)) + (1j * rng.standard_normal((m, n)) if cplx else 0)
+        return ops.Sum(ops.Dense(M - E), ops.Dense(E)), M
     if kind == "dense":
         s = 1.0 * 1.2 ** (np.arange(r) + 0.3 * rng.random(r))
         rng.shuffle(s)
@@ -137,7 +183,7 @@ def check(case, out):
     scale = max(1.0, np.linalg.norm(M, 2))
     out.label("fn:" + fn, "kind:" + case["kind"], "alg:" + case["alg"], "shape:" + ("wide" if m < n else "tall" if m > n else "square"),
               "complex" if np.iscomplexobj(M) else "real", "k:" + ("all" if k == r else "part"))
-    site = f"{fn}:{type(A).__name__}:{case['alg']}:{'wide' if m < n else 'tall' if m > n else 'square'}"
+    site = f"{fn}:{type(A).__name__.split(chr(91))[0]}:{case['alg']}:{'wide' if m < n else 'tall' if m > n else 'square'}"
     out.nontrivial = m != n or (fn == "svd" and k < r) or np.iscomplexobj(M) or case["alg"] == "CG"
 
     if fn == "svd":
@@ -173,11 +219,15 @@ def check(case, out):
         if kk == r:
             target, what = M, "M"
         elif kk == k:
+            if sf[k - 1] - sf[k] < 0.05 * sf[0]:  # (near-)equal singular values at the cut: the best rank-k approximation is not unique
+                out.inconclusive += 1
+                out.label("svd:no_gap_at_k")
+                return
             target, what = best(k), f"the best rank-{k} approximation"
         else:
             out.fail("factors", site, "count", f"{kk} triplets returned for k={k}, min(m,n)={r}")
             return
-        if krylov and kk != k and case["kind"] == "dense":  # structural rules may return their full exact decomposition
+        if krylov and kk != k and case["kind"] in ("dense", "herm", "psd_ann", "prod", "sum"):  # structural rules may return their full exact decomposition
             out.fail("factors", site, "count", f"Krylov algorithm returned {kk} triplets for k={k}")
             return
         err = np.abs(rec - target).max()
@@ -195,7 +245,7 @@ def check(case, out):
     if bdt == "complex" and not np.iscomplexobj(M):  # complex right-hand side for a real operator
         b = b + 1j * rng.standard_normal(shape)
         out.label("rhs:complex_for_real_operator")
-    if bdt == "f32op" and case["kind"] == "dense" and not np.iscomplexobj(M) and case["alg"] != "CG":
+    if bdt == "f32op" and type(A).__name__ == "Dense" and not A.annotations and not np.iscomplexobj(M) and case["alg"] != "CG":
         # float32 operator, float64 right-hand side: the solve has to run in the promoted (double) precision
         M = M.astype(np.float32).astype(np.float64)
         A = cola.ops.Dense(M.astype(np.float32))
